@@ -424,9 +424,16 @@ static void jacobiEig(std::vector<LD>& M, int n, std::vector<LD>& w, std::vector
 }
 
 // ------------------------------------------------------------------ oracles
+// Keys.  <condition>:<solver>:<row kind>[:<input class>]
+//  * hard conditions (inequalities the algorithms enforce explicitly; bookkeeping) never carry an input class;
+//  * PLUS "soft" conditions (they need the Newton iteration of every sliding interval to have converged, which
+//    the solver does not report) carry the input class of the problem: "" (full-rank A, one proven sliding
+//    interval), ":rankdef" (rank-deficient A), ":multi" (several / unproven number of sliding intervals);
+//  * every PLUS::solve condition that involves the resulting velocity when D != 0 maps to "eq-with-D:PLUS:solve"
+//    (one root cause: D is ignored).
 struct Judge {
     Ctx& c; const Prob& P; const Out& O; int solver; int klass; bool bilateral;
-    std::string sn, dcl;
+    std::string sn, plusClass;
     std::vector<LD> vf;         // harness-recomputed resulting velocities  tot_in - (A+D)(pi+piE)
     VD tolEq;                   // per-row tolerance for "this row's equation is enforced"
     VD rowAbs;                  // sum of |terms| per row (rounding scale)
@@ -437,17 +444,19 @@ struct Judge {
             .set("D", P.dClass).set("designed", P.designed).set("applied", !P.verrApplied.empty()).set("maxRoll", P.maxRoll).set("ctol", ctol).set("ret", O.ret);
         return w;
     }
-    // Equality-type conditions of PLUS::solve with D != 0 share one root cause (D is ignored): one key.
-    std::string eqKey(const std::string& cond, const std::string& kind) const {
+    // soft condition on impulses only
+    std::string softKey(const std::string& cond, const std::string& kind) const { return cond + ":" + sn + ":" + kind + (solver == S_PLUS ? plusClass : std::string()); }
+    // soft condition that involves the resulting velocity
+    std::string velKey(const std::string& cond, const std::string& kind) const {
         if (solver == S_PLUS && !bilateral && P.dpos()) return "eq-with-D:PLUS:solve";
-        return cond + ":" + sn + ":" + kind;
+        return softKey(cond, kind);
     }
 };
 
 static void judge(Ctx& c, const Prob& P, const Out& O, int solver, int klass, bool bilateral) {
     const int m = P.m; const int p = (int)P.part.size();
     Judge J{c, P, O, solver, klass, bilateral};
-    J.sn = SN[solver]; J.dcl = P.dClass;
+    J.sn = SN[solver];
     const std::string sn = J.sn, op = bilateral ? "solveBilateral" : "solve";
     J.ctol = P.ctol > 0 ? P.ctol : (solver == S_PLUS ? 1e-10 : 1e-6);
     auto W = [&]() { return J.base(); };
@@ -475,19 +484,47 @@ static void judge(Ctx& c, const Prob& P, const Out& O, int solver, int klass, bo
         s += std::fabs((LD)P.D[i] * pe[i]);
         J.rowAbs[i] = (double)s;
     }
+    auto vfD = [&](int i) { return (double)J.vf[i]; };
+    auto diag = [&](int i) { return P.a(i, i) + P.D[i]; };
+
+    // ---- PGS: projected Gauss-Seidel step that each *clamped* element would take next from the returned point.
+    // The solver's convergence measure leaves out the rows it clamped in the sweep, so their last motion is not
+    // bounded by ctol; the step they would take next (measured here) estimates it and enters the tolerance of the
+    // enforced rows below.
+    VD natStep(m, 0.0);
+    if (solver == S_PGS && !bilateral) {
+        auto cone = [&](const VI& Fk, double lim, int cond) {
+            if (cond != IS::Sliding) return;
+            VD cand(Fk.size()); double n2 = 0;
+            for (size_t q = 0; q < Fk.size(); ++q) { double dd = diag(Fk[q]); cand[q] = O.pi[Fk[q]] + (dd > 0 ? vfD(Fk[q]) / dd : 0); n2 += cand[q] * cand[q]; }
+            double nn = std::sqrt(n2), sc = nn > lim && nn > 0 ? lim / nn : 1;
+            for (size_t q = 0; q < Fk.size(); ++q) natStep[Fk[q]] = std::fabs(sc * cand[q] - O.pi[Fk[q]]);
+        };
+        for (size_t k = 0; k < P.con.size(); ++k) {
+            const Con& cc = P.con[k]; if (cc.type == IS::Observing) continue;
+            if (cc.type == IS::Participating && O.con[k].cond == IS::UniOff) { double dd = diag(cc.Nk); double cand = dd > 0 ? vfD(cc.Nk) / dd : 0; if (cc.sign * cand < 0) natStep[cc.Nk] = std::fabs(cand); }
+            if (!cc.Fk.empty()) cone(cc.Fk, cc.mu * std::fabs(O.pi[cc.Nk] + P.piExpand[cc.Nk]), O.con[k].fcond);
+        }
+        for (size_t k = 0; k < P.bnd.size(); ++k) { const Bnd& b = P.bnd[k]; if (O.bndCond[k] == IS::Engaged) continue; double dd = diag(b.ix);
+            double cand = O.pi[b.ix] + (dd > 0 ? vfD(b.ix) / dd : 0); cand = std::min(b.ub, std::max(b.lb, cand)); natStep[b.ix] = std::fabs(cand - O.pi[b.ix]); }
+        for (size_t k = 0; k < P.slf.size(); ++k) cone(P.slf[k].Fk, P.slf[k].mu * P.slf[k].knownN, O.slfCond[k]);
+        for (size_t k = 0; k < P.clf.size(); ++k) { double n2 = 0; for (int x : P.clf[k].Nk) n2 += O.pi[x] * O.pi[x]; cone(P.clf[k].Fk, P.clf[k].mu * std::sqrt(n2), O.clfCond[k]); }
+    }
     // per-row enforcement tolerance (a-priori model, see DESIGN 1.4):
     //  PLUS: Newton stops at ||err||_2 <= ctol on the active rows; the last interval leaves -err.
     //  PGS : stops when the RMS over p rows of the *pre-update* row errors is < ctol; rows updated later in the
-    //        same sweep move row r by at most sum_c |A_rc| * sor*|e_c|/(A_cc+D_c), |e_c| <= ctol*sqrt(p).
+    //        same sweep move row r by at most sum_c |A_rc| * sor*|e_c|/(A_cc+D_c), |e_c| <= ctol*sqrt(p), plus the
+    //        motion of the clamped rows (measured above).
+    double worstNat = 0;
     for (int i = 0; i < m; ++i) {
         double round = 200 * EPS * (m + 4) * J.rowAbs[i];
         if (solver == S_PLUS) J.tolEq[i] = 10 * J.ctol + round;
         else {
-            double g = 1; for (int x : P.part) { double dd = P.a(x, x) + P.D[x]; if (dd > 0) g += 1.2 * std::fabs(P.a(i, x)) / dd; }
-            J.tolEq[i] = 2 * J.ctol * std::sqrt((double)std::max(1, p)) * g + round;
+            double g = 1, cl = 0; for (int x : P.part) { double dd = diag(x); if (dd > 0) g += 1.2 * std::fabs(P.a(i, x)) / dd; cl += std::fabs(P.a(i, x)) * natStep[x]; }
+            J.tolEq[i] = 2 * J.ctol * std::sqrt((double)std::max(1, p)) * g + 3 * cl + round;
+            worstNat = std::max(worstNat, cl);
         }
     }
-    auto vfD = [&](int i) { return (double)J.vf[i]; };
 
     // ---- returned verr equals input - (A+D)(pi+piExpand)
     if (!bilateral) {
@@ -505,6 +542,20 @@ static void judge(Ctx& c, const Prob& P, const Out& O, int solver, int klass, bo
     }
     if (!judged) return;
 
+    // ---- PLUS: input class of the problem; can the harness prove a single sliding interval?
+    bool plusSingle = true; int nInitSliding = 0;
+    if (solver == S_PLUS && !bilateral) {
+        for (size_t k = 0; k < P.con.size(); ++k) {
+            const Con& cc = P.con[k]; if (cc.type == IS::Observing || cc.Fk.empty()) continue;
+            double v0 = P.verrStart[cc.Fk[0]], v1 = P.verrStart[cc.Fk[1]];
+            if (std::hypot(v0, v1) > P.maxRoll) { ++nInitSliding; if (!(O.con[k].sv[0] == v0 && O.con[k].sv[1] == v1) || O.con[k].fcond == IS::Impending) plusSingle = false; }
+        }
+        c.obs(plusSingle ? (nInitSliding ? "PLUS:single-interval-proved" : "PLUS:no-initial-sliding") : "PLUS:multi-interval");
+        const bool rankdef = P.rankClass == "deficient" || P.rankClass == "duprows";
+        J.plusClass = std::string(rankdef ? ":rankdef" : "") + (plusSingle ? "" : ":multi");
+    }
+    const bool eqOK = (solver == S_PGS) || plusSingle;     // equalities tied to the last reported condition
+
     // ---- unconditional rows: the equation holds
     auto eqRows = [&](const VI& rows, const std::string& key, const char* what) {
         double worst = 0; int wi = -1;
@@ -512,7 +563,7 @@ static void judge(Ctx& c, const Prob& P, const Out& O, int solver, int klass, bo
         c.check(key, worst, 1.0, [&] { return W().set("what", what).set("row", wi).set("verr", wi >= 0 ? vfD(wi) : 0.0).set("tol", wi >= 0 ? J.tolEq[wi] : 0.0); });
     };
     { VI rows; for (auto& u : P.unc) for (int x : u) rows.push_back(x);
-      if (!rows.empty()) eqRows(rows, J.eqKey("uncond-residual", op), "unconditional row"); }
+      if (!rows.empty()) eqRows(rows, J.velKey("uncond-residual", op), "unconditional row"); }
 
     // ---- minimum norm (PLUS, unconditional-only problems): pi is orthogonal to null(P(A+D)~P)
     const bool uncondOnly = P.con.empty() && P.spd.empty() && P.bnd.empty() && P.clf.empty() && P.slf.empty();
@@ -534,16 +585,6 @@ static void judge(Ctx& c, const Prob& P, const Out& O, int solver, int klass, bo
     }
     if (bilateral) return;
 
-    // ---- PLUS: can the harness prove a single sliding interval?
-    bool plusSingle = true; int nInitSliding = 0;
-    if (solver == S_PLUS) for (size_t k = 0; k < P.con.size(); ++k) {
-        const Con& cc = P.con[k]; if (cc.type == IS::Observing || cc.Fk.empty()) continue;
-        double v0 = P.verrStart[cc.Fk[0]], v1 = P.verrStart[cc.Fk[1]];
-        if (std::hypot(v0, v1) > P.maxRoll) { ++nInitSliding; if (!(O.con[k].sv[0] == v0 && O.con[k].sv[1] == v1) || O.con[k].fcond == IS::Impending) plusSingle = false; }
-    }
-    if (solver == S_PLUS) c.obs(plusSingle ? (nInitSliding ? "PLUS:single-interval-proved" : "PLUS:no-initial-sliding") : "PLUS:multi-interval");
-    const bool eqOK = (solver == S_PGS) || plusSingle;     // equalities tied to the last reported condition
-
     // ---- unilateral contacts
     const double tolAbsImp = 1e-11;   // the active-set loop accepts violations up to SignificantReal (~2e-14) per interval
     for (size_t k = 0; k < P.con.size(); ++k) {
@@ -553,7 +594,7 @@ static void judge(Ctx& c, const Prob& P, const Out& O, int solver, int klass, bo
         const double piN = O.pi[cc.Nk];
         const double N = std::fabs(piN + P.piExpand[cc.Nk]);
         auto WC = [&]() { Json w = W(); w.set("contact", (int)k).set("type", tn).set("sign", cc.sign).set("mu", cc.mu).set("friction", fr).set("piN", piN).set("piExpandN", P.piExpand[cc.Nk])
-            .set("cond", IS::getUniCondName((IS::UniCond)oc.cond)).set("fcond", IS::getFricCondName((IS::FricCond)oc.fcond)).set("verrN", vfD(cc.Nk)).set("single", plusSingle);
+            .set("cond", IS::getUniCondName((IS::UniCond)oc.cond)).set("fcond", IS::getFricCondName((IS::FricCond)oc.fcond)).set("verrN", vfD(cc.Nk)).set("tolN", J.tolEq[cc.Nk]).set("single", plusSingle);
             if (fr) w.set("piF", Json::arr().push(O.pi[cc.Fk[0]]).push(O.pi[cc.Fk[1]])).set("verrF", Json::arr().push(vfD(cc.Fk[0])).push(vfD(cc.Fk[1]))).set("slipVel", Json::arr().push(oc.sv[0]).push(oc.sv[1]))
                      .set("verrStartF", Json::arr().push(P.verrStart[cc.Fk[0]]).push(P.verrStart[cc.Fk[1]]));
             return w; };
@@ -564,10 +605,10 @@ static void judge(Ctx& c, const Prob& P, const Out& O, int solver, int klass, bo
         } else {
             c.check("uni-never-pull:" + sn, cc.sign * piN, tolAbsImp * (1 + N), WC);
             if (!c.require("uni-cond-reported:" + sn, oc.cond == IS::UniActive || oc.cond == IS::UniOff, WC)) continue;
-            if (oc.cond == IS::UniActive) { c.check(J.eqKey("uni-active-verr", "contact"), std::fabs(vfD(cc.Nk)), J.tolEq[cc.Nk], WC); }
+            if (oc.cond == IS::UniActive) c.check(J.velKey("uni-active-verr", "contact"), std::fabs(vfD(cc.Nk)), J.tolEq[cc.Nk], WC);
             else {
                 if (eqOK) c.check("uni-off-impulse-zero:" + sn, std::fabs(piN), 0, WC);
-                c.check(J.eqKey("uni-off-separating", "contact"), -cc.sign * vfD(cc.Nk), J.tolEq[cc.Nk], WC);
+                c.check(J.velKey("uni-off-separating", "contact"), -cc.sign * vfD(cc.Nk), J.tolEq[cc.Nk], WC);
             }
         }
         if (!fr) continue;
@@ -575,22 +616,22 @@ static void judge(Ctx& c, const Prob& P, const Out& O, int solver, int klass, bo
         const double pFn = std::hypot(pF[0], pF[1]), vFn = std::hypot(vF[0], vF[1]);
         // cone: Newton leaves |v|*pi_F + mu*v*piz = err, ||err|| <= ctol with |v| > maxRoll  (PLUS); PGS scales onto the cone
         const double tolCone = (solver == S_PLUS ? 10 * J.ctol / P.maxRoll * 4 : 0) + 1e-11 * (1 + cc.mu * N) + 64 * EPS * (cc.mu * N + pFn);
-        c.check("friction-cone:" + sn + ":contact", pFn - cc.mu * N, tolCone, WC);
+        c.check(J.softKey("friction-cone", "contact"), pFn - cc.mu * N, tolCone, WC);
         const bool normalOff = (cc.type == IS::Participating && oc.cond == IS::UniOff);
         if (normalOff) { if (eqOK) c.check("uni-off-friction-zero:" + sn, pFn, solver == S_PGS ? 0 : tolAbsImp, WC); continue; }
         if (!c.require("fric-cond-reported:" + sn + ":contact", oc.fcond == IS::Rolling || oc.fcond == IS::Sliding || oc.fcond == IS::Impending, WC)) continue;
         const double tolF = std::max(J.tolEq[cc.Fk[0]], J.tolEq[cc.Fk[1]]) * 1.5;
         if (oc.fcond == IS::Rolling) {
-            c.check(J.eqKey("rolling-slip-zero", "contact"), vFn, tolF, WC);
+            c.check(J.velKey("rolling-slip-zero", "contact"), vFn, tolF, WC);
         } else if (oc.fcond == IS::Sliding) {
-            if (eqOK) c.check("sliding-on-cone:" + sn + ":contact", std::fabs(pFn - cc.mu * N), tolCone, WC);
+            if (eqOK) c.check(J.softKey("sliding-on-cone", "contact"), std::fabs(pFn - cc.mu * N), tolCone, WC);
             if (solver == S_PLUS) {
                 if (plusSingle) {
-                    // friction multiplier = mu*N * (reported = input slip direction); it must also oppose the resulting slip
+                    // friction multiplier = mu*N * (reported = input slip direction)
                     double sm = std::hypot(oc.sv[0], oc.sv[1]);
                     c.require("sliding-reported-speed-above-threshold:PLUS:contact", sm > P.maxRoll, WC);
                     double e = std::hypot(pF[0] - cc.mu * N * oc.sv[0] / sm, pF[1] - cc.mu * N * oc.sv[1] / sm);
-                    c.check("sliding-opposes-slip:PLUS:contact", e, tolCone, WC);
+                    c.check(J.softKey("sliding-opposes-slip", "contact"), e, tolCone, WC);
                 }
             } else {
                 // PGS: dissipative: pi_F . v_F(final) >= 0 in the multiplier sign convention
@@ -600,9 +641,9 @@ static void judge(Ctx& c, const Prob& P, const Out& O, int solver, int klass, bo
             c.obs("PLUS:impending-reported");
             if (solver == S_PGS) { c.viol("impending-reported:PGS:contact", WC()); continue; }
             if (nInitSliding == 0) {        // single interval for sure
-                c.check(J.eqKey("impending-on-cone", "contact"), std::fabs(pFn - cc.mu * N), tolCone + 10 * J.ctol / std::max(vFn, 1e-3), WC);
+                c.check(J.softKey("impending-on-cone", "contact"), std::fabs(pFn - cc.mu * N), tolCone + 10 * J.ctol / std::max(vFn, 1e-3), WC);
                 // resulting slip v_F must be opposed: pi_F = +mu*N*v_F/|v_F| (multiplier convention), at least pi_F.v_F >= 0
-                c.check(J.eqKey("impending-opposes-slip", "contact"), -(pF[0] * vF[0] + pF[1] * vF[1]), 1e-9 * (1 + pFn * vFn), WC);
+                c.check(J.velKey("impending-opposes-slip", "contact"), -(pF[0] * vF[0] + pF[1] * vF[1]), 1e-9 * (1 + pFn * vFn), WC);
             }
         }
     }
@@ -612,27 +653,23 @@ static void judge(Ctx& c, const Prob& P, const Out& O, int solver, int klass, bo
         const Spd& s = P.spd[k]; const double pi = O.pi[s.ix]; const int cond = O.spdCond[k];
         auto WS = [&]() { return W().set("row", s.ix).set("sign", s.sign).set("pi", pi).set("verr", vfD(s.ix)).set("cond", IS::getUniCondName((IS::UniCond)cond)); };
         c.cover(sn + ":unispeed:" + IS::getUniCondName((IS::UniCond)cond));
+        // a solver that never reports a condition for this row kind does not implement it: one key, nothing else judged
+        if (!c.require("row-kind-not-implemented:" + sn + ":unispeed", cond == IS::UniActive || cond == IS::UniOff, WS)) continue;
         c.check("unispeed-never-pull:" + sn, s.sign * pi, tolAbsImp * (1 + std::fabs(pi)), WS);
-        if (!c.require("unispeed-cond-reported:" + sn, cond == IS::UniActive || cond == IS::UniOff, WS)) {
-            // complementarity without the reported condition: either the equation holds or pi==0 and separating
-            bool okc = (std::fabs(vfD(s.ix)) <= J.tolEq[s.ix]) || (pi == 0 && s.sign * vfD(s.ix) >= -J.tolEq[s.ix]);
-            c.require("unispeed-complementarity:" + sn, okc, WS);
-            continue;
-        }
-        if (cond == IS::UniActive) c.check(J.eqKey("unispeed-active-verr", "unispeed"), std::fabs(vfD(s.ix)), J.tolEq[s.ix], WS);
-        else { c.check("unispeed-off-impulse-zero:" + sn, std::fabs(pi), 0, WS); c.check(J.eqKey("unispeed-off-separating", "unispeed"), -s.sign * vfD(s.ix), J.tolEq[s.ix], WS); }
+        if (cond == IS::UniActive) c.check(J.velKey("unispeed-active-verr", "unispeed"), std::fabs(vfD(s.ix)), J.tolEq[s.ix], WS);
+        else { c.check("unispeed-off-impulse-zero:" + sn, std::fabs(pi), 0, WS); c.check(J.velKey("unispeed-off-separating", "unispeed"), -s.sign * vfD(s.ix), J.tolEq[s.ix], WS); }
     }
 
     // ---- bounded rows
     for (size_t k = 0; k < P.bnd.size(); ++k) {
         const Bnd& b = P.bnd[k]; const double pi = O.pi[b.ix]; const int cond = O.bndCond[k];
-        auto WB = [&]() { return W().set("row", b.ix).set("lb", b.lb).set("ub", b.ub).set("pi", pi).set("verr", vfD(b.ix)).set("cond", IS::getBndCondName((IS::BndCond)cond)); };
+        auto WB = [&]() { return W().set("row", b.ix).set("lb", b.lb).set("ub", b.ub).set("pi", pi).set("verr", vfD(b.ix)).set("tol", J.tolEq[b.ix]).set("cond", IS::getBndCondName((IS::BndCond)cond)); };
         c.cover(sn + ":bounded:" + IS::getBndCondName((IS::BndCond)cond));
+        if (!c.require("row-kind-not-implemented:" + sn + ":bounded", cond >= IS::SlipLow && cond <= IS::SlipHigh, WB)) continue;
         c.check("bounded-within:" + sn, std::max(pi - b.ub, b.lb - pi), 64 * EPS * (std::fabs(b.lb) + std::fabs(b.ub)), WB);
-        if (!c.require("bounded-cond-reported:" + sn, cond >= IS::SlipLow && cond <= IS::SlipHigh, WB)) continue;
-        if (cond == IS::Engaged) c.check(J.eqKey("bounded-engaged-verr", "bounded"), std::fabs(vfD(b.ix)), J.tolEq[b.ix], WB);
-        else if (cond == IS::SlipHigh || cond == IS::ImpendHigh) { c.check("bounded-high-at-ub:" + sn, std::fabs(pi - b.ub), 64 * EPS * std::fabs(b.ub), WB); c.check(J.eqKey("bounded-high-verr-sign", "bounded"), -vfD(b.ix), J.tolEq[b.ix], WB); }
-        else { c.check("bounded-low-at-lb:" + sn, std::fabs(pi - b.lb), 64 * EPS * std::fabs(b.lb), WB); c.check(J.eqKey("bounded-low-verr-sign", "bounded"), vfD(b.ix), J.tolEq[b.ix], WB); }
+        if (cond == IS::Engaged) c.check(J.velKey("bounded-engaged-verr", "bounded"), std::fabs(vfD(b.ix)), J.tolEq[b.ix], WB);
+        else if (cond == IS::SlipHigh || cond == IS::ImpendHigh) { c.check("bounded-high-at-ub:" + sn, std::fabs(pi - b.ub), 64 * EPS * std::fabs(b.ub), WB); c.check(J.velKey("bounded-clamped-verr-sign", "bounded"), -vfD(b.ix), J.tolEq[b.ix], WB); }
+        else { c.check("bounded-low-at-lb:" + sn, std::fabs(pi - b.lb), 64 * EPS * std::fabs(b.lb), WB); c.check(J.velKey("bounded-clamped-verr-sign", "bounded"), vfD(b.ix), J.tolEq[b.ix], WB); }
     }
 
     // ---- state-limited and constraint-limited friction
@@ -642,15 +679,14 @@ static void judge(Ctx& c, const Prob& P, const Out& O, int solver, int klass, bo
         pn = std::sqrt(pn); vn = std::sqrt(vn); tolF *= std::sqrt((double)Fk.size());
         auto WL = [&]() { Json w = W(); w.set("element", idx).set("limit", lim).set("piF_norm", pn).set("verrF_norm", vn).set("piF_dot_verrF", dot).set("cond", IS::getFricCondName((IS::FricCond)cond)).set("nF", (int)Fk.size()); return w; };
         c.cover(sn + ":" + kind + ":" + IS::getFricCondName((IS::FricCond)cond) + ":nF" + std::to_string(Fk.size()));
+        if (!c.require("row-kind-not-implemented:" + sn + ":" + kind, cond == IS::Rolling || cond == IS::Sliding || cond == IS::Impending, WL)) return;
         const double tolCone = 1e-11 * (1 + lim) + 64 * EPS * (lim + pn);
         c.check("friction-cone:" + sn + ":" + kind, pn - lim, tolCone, WL);
-        if (!c.require("fric-cond-reported:" + sn + ":" + kind, cond == IS::Rolling || cond == IS::Sliding || cond == IS::Impending, WL)) return;
-        if (cond == IS::Rolling) c.check(J.eqKey("rolling-slip-zero", kind), vn, tolF, WL);
+        if (cond == IS::Rolling) c.check(J.velKey("rolling-slip-zero", kind), vn, tolF, WL);
         else { c.check("sliding-on-cone:" + sn + ":" + kind, std::fabs(pn - lim), tolCone, WL); c.check("sliding-opposes-slip:" + sn + ":" + kind, -dot, tolF * (pn + 1e-3) + 1e-12, WL); }
     };
     for (size_t k = 0; k < P.slf.size(); ++k) ltd(P.slf[k].Fk, P.slf[k].mu * P.slf[k].knownN, O.slfCond[k], "state-ltd", (int)k);
     for (size_t k = 0; k < P.clf.size(); ++k) { double n2 = 0; for (int x : P.clf[k].Nk) n2 += O.pi[x] * O.pi[x]; ltd(P.clf[k].Fk, P.clf[k].mu * std::sqrt(n2), O.clfCond[k], "cons-ltd", (int)k); }
-
 }
 
 // ------------------------------------------------------------------ one case
@@ -684,9 +720,11 @@ static void oneCase(Ctx& c, long ci, Rng& r, long onlyKlass, long onlySolver) {
     int klass = onlyKlass >= 0 ? (int)onlyKlass : (int)((ci / 2) % K_COUNT);
     const std::string sn = SN[solver];
     // PLUS does not implement bounded rows (crash/hang when a bound would be active): sampled rarely, in a child
-    const bool plusBounded = solver == S_PLUS && (klass == K_BOUNDED);
+    // (likewise unilateral-speed and limited-friction rows: not implemented by PLUS, sampled once per 8 cycles)
     if (solver == S_PLUS && klass == K_MIXED) klass = K_EXPANSION;     // PLUS: mixed problems would contain bounded rows
-    if (plusBounded && onlyKlass < 0 && (ci / (2 * K_COUNT)) % 8 != 0) klass = K_FRICTION_GENERIC;
+    if (solver == S_PLUS && onlyKlass < 0 && (ci / (2 * K_COUNT)) % 8 != 0) {
+        if (klass == K_BOUNDED) klass = K_STICKSLIP; else if (klass == K_LTDFRICTION) klass = K_FRICTION_DESIGNED; else if (klass == K_UNISPEED) klass = K_FRICTIONLESS;
+    }
     c.setPhase(std::string("generate ") + sn + " " + KN[klass]);
     Prob P = generate(r, klass, solver, ci);
     const bool bilateral = klass == K_BILATERAL;
